@@ -61,6 +61,7 @@ Proof. rewrite av_gt_num_spec. unfold le_numb. destruct (cmpv (sections a) (sect
 
 Section WithOracle.
 Variable orc : avop -> pstr -> pstr -> option bool.
+Variable cont : pstr -> bool.
 
 (* ---- the three generated tests, on dotted numeric input.  The proofs accept any
    spelling of the test that means the same (operands swapped, negated, ...):
@@ -179,9 +180,10 @@ Qed.
 
 (* safe_is_version keeps a version that is numerically >= 1.4 and replaces any older one *)
 Theorem safe_is_version_num v : dotted_numeric v = true ->
-  safe_is_version orc (VStr v) = Ok (if le_numb [1; 4] (sections v) then v else s2p "1.4").
+  safe_is_version orc cont (VStr v) = Ok (if le_numb [1; 4] (sections v) then v else s2p "1.4").
 Proof.
-  intro Hv. unfold safe_is_version, is_version. cbn [py_str]. rewrite (is_version_test_num v Hv).
+  intro Hv. unfold safe_is_version, safe_is_version_with, is_version_with, is_container. cbn [py_str].
+  rewrite Hv. cbn [negb andb]. rewrite andb_false_r. rewrite (is_version_test_num v Hv).
   destruct (le_numb [1; 4] (sections v)); reflexivity.
 Qed.
 
@@ -201,7 +203,7 @@ Qed.
 
 (* what a gateway configured with a dotted numeric version uses *)
 Theorem gateway_const_floor v : dotted_numeric v = true ->
-  gateway_const orc (VStr v) = Ok (floor_module (sections v)).
+  gateway_const orc cont (VStr v) = Ok (floor_module (sections v)).
 Proof.
   intro Hv. unfold gateway_const. rewrite (safe_is_version_num v Hv).
   destruct (le_numb [1; 4] (sections v)) eqn:E; cbn [bind].
@@ -212,7 +214,7 @@ Qed.
 
 (* the ">= 2.0" test of is_sensor, applied to the gateway's stored version *)
 Theorem wants_presentation_num v : dotted_numeric v = true ->
-  (do s <- safe_is_version orc (VStr v); wants_presentation orc s)
+  (do s <- safe_is_version orc cont (VStr v); wants_presentation orc s)
   = Ok (le_numb [2; 0] (sections v)).
 Proof.
   intro Hv. rewrite (safe_is_version_num v Hv).
@@ -235,10 +237,10 @@ Proof.
 Qed.
 
 (* the same selection is applied to the version a node presents *)
-Theorem node_same_rule (v : val) : node_const orc v = gateway_const orc v.
+Theorem node_same_rule (v : val) : node_const orc cont v = gateway_const orc cont v.
 Proof.
   unfold node_const, gateway_const, sensor_set_version, sensor_setter.
-  destruct (safe_is_version orc v); reflexivity.
+  destruct (safe_is_version orc cont v); reflexivity.
 Qed.
 
 (* is_version's test on a value whose str() is not dotted numeric is the oracle's verdict *)
@@ -251,49 +253,61 @@ Proof.
   rewrite Hd, ?andb_false_r. cbn [andb]. reflexivity.
 Qed.
 
-(* anything the library cannot compare, or finds older than 1.4, falls back to 1.4 *)
+(* a container word ("latest", "dev", "stable", "beta"), anything the library
+   cannot compare, and anything it finds older than 1.4 falls back to 1.4 *)
 Theorem nonnumeric_fallback (v : val) :
-  (eval_vtest orc is_version_test (py_str v) [] = None
+  dotted_numeric (py_str v) = false ->
+  (cont (py_str v) = true
+   \/ eval_vtest orc is_version_test (py_str v) [] = None
    \/ eval_vtest orc is_version_test (py_str v) [] = Some true) ->
-  safe_is_version orc v = Ok (s2p "1.4")
-  /\ gateway_const orc v = Ok fallback_module /\ node_const orc v = Ok fallback_module.
+  safe_is_version orc cont v = Ok (s2p "1.4")
+  /\ gateway_const orc cont v = Ok fallback_module /\ node_const orc cont v = Ok fallback_module.
 Proof.
-  intros Ho.
-  assert (Hs : safe_is_version orc v = Ok (s2p "1.4")).
-  { unfold safe_is_version, is_version. destruct Ho as [-> | ->]; reflexivity. }
+  intros Hd Ho.
+  assert (Hs : safe_is_version orc cont v = Ok (s2p "1.4")).
+  { unfold safe_is_version, safe_is_version_with, is_version_with, is_container, is_version_rejects_container.
+    rewrite Hd. cbn [negb andb].
+    destruct (cont (py_str v)) eqn:Ec; [reflexivity|].
+    destruct Ho as [Ho | [-> | ->]]; [discriminate| |]; reflexivity. }
   split; [exact Hs|]. rewrite node_same_rule. split; unfold gateway_const; rewrite Hs; cbn [bind];
     (rewrite get_const_floor by (vm_compute; reflexivity)); vm_compute; reflexivity.
 Qed.
 
-(* ... and anything it accepts is kept as written *)
+(* ... and anything else it accepts is kept as written *)
 Theorem nonnumeric_accepted (v : val) :
+  is_container cont (py_str v) = false ->
   eval_vtest orc is_version_test (py_str v) [] = Some false ->
-  safe_is_version orc v = Ok (py_str v).
-Proof. intros Ho. unfold safe_is_version, is_version. rewrite Ho. reflexivity. Qed.
+  safe_is_version orc cont v = Ok (py_str v).
+Proof.
+  intros Hc Ho. unfold safe_is_version, safe_is_version_with, is_version_with.
+  rewrite Hc, andb_false_r, Ho. reflexivity.
+Qed.
 
 End WithOracle.
 
-(* ---- finding (known, version/container-word): awesomeversion's SpecialContainer words
-   "latest", "dev", "stable", "beta" compare greater than every numeric version, so
-   they are neither incomparable nor older than 1.4: the full statement "every
-   non-numeric string falls back to 1.4" is false.  container_orc is the library's
-   verdict on such a word (the harness checks it against awesomeversion on every run). *)
+(* ---- history (finding version/container-word, repaired by b5ee08d): awesomeversion's
+   SpecialContainer words compare greater than every numeric version.  Before the
+   fix is_version had no container test (is_version_with false): with the library's
+   verdict on such a word (container_orc; the harness checks it against
+   awesomeversion on every run) the digit-free string "dev" was kept and selected
+   the 2.2 constants.  With the test the same oracle falls back to 1.4. *)
 Definition container_orc (w : pstr) : avop -> pstr -> pstr -> option bool :=
   fun op l r =>
     if pstr_eqb l w then Some (match op with OpGt | OpGe | OpNe => true | _ => false end)
     else if pstr_eqb r w then Some (match op with OpLt | OpLe | OpNe => true | _ => false end)
     else None.
 
-Lemma nonnumeric_fallback_refuted :
-  exists (orc : avop -> pstr -> pstr -> option bool) (v : val),
+Lemma nonnumeric_fallback_unfixed_refuted :
+  exists (orc : avop -> pstr -> pstr -> option bool) (cont : pstr -> bool) (v : val),
     dotted_numeric (py_str v) = false
     /\ forallb (fun c => negb (is_digit c)) (py_str v) = true
-    /\ safe_is_version orc v = Ok (py_str v)
-    /\ gateway_const orc v = Ok (s2p "mysensors.const_22")
-    /\ node_const orc v = Ok (s2p "mysensors.const_22")
-    /\ (do s <- safe_is_version orc v; wants_presentation orc s) = Ok true.
+    /\ cont (py_str v) = true
+    /\ safe_is_version_with orc cont false v = Ok (py_str v)
+    /\ get_const orc (py_str v) = Ok (s2p "mysensors.const_22")
+    /\ safe_is_version orc cont v = Ok (s2p "1.4").
 Proof.
-  exists (container_orc (s2p "dev")), (VStr (s2p "dev")). vm_compute. repeat split.
+  exists (container_orc (s2p "dev")), (fun s => pstr_eqb s (s2p "dev")), (VStr (s2p "dev")).
+  vm_compute. repeat split.
 Qed.
 
 (* ---- what counts as a dotted numeric string *)
